@@ -52,7 +52,7 @@ func (m *monitor) report(ck *checker, v *verdict, cs Case, origin string) {
 func Run(r *ev.Run, replay string) {
 	r.Rule = "G = rooted graph description (node 0 root); relabel(G) = non-root ids permuted, edge list and per-node error lists reordered. " +
 		"For each G: a fresh resolve.Graph is built through AddNode/AddError/AddEdge for every Canon call. Checked: Canon(G) and Canon(relabel(G)) both fail or both succeed with deep-equal graphs " +
-		"(nodes in order with version key and errors, edges in order with from/to/requirement and dep.Type.Compare==0); Canon(Canon(G)) succeeds and equals Canon(G); " +
+		"(nodes in order with version key and errors, edges in order with from/to/requirement and the type read attribute by attribute); Canon(Canon(G)) succeeds and equals Canon(G); " +
 		"root, multiset of (version key, error multiset) nodes and multiset of (from node, to node, requirement, type) edges equal the input's, computed from the harness' own description. " +
 		"(a) exhaustive space E(n,K) (see exhaustive_space) with all (n-1)! renumberings; (b) random graphs of 1..40 nodes over small name/version alphabets (duplicates), parallel edges of other type/requirement, self loops, cycles, unreachable nodes, node errors; 20 random relabelings each. " +
 		"Non-trivial = graph with >=1 pair of nodes with equal version key or >=1 pair of parallel edges; exhaustive descriptions are distinct by construction, random ones are counted by hash of the description."
